@@ -1,4 +1,5 @@
 import MosnVerif.Model.LB
+import MosnVerif.Lemmas.EDF
 /-! helper lemmas for C05: every policy's result passed a health check; the traversals cover every index -/
 namespace MosnVerif.Model.LB
 open MosnVerif.Gen
@@ -306,5 +307,69 @@ theorem anyHealthy_iff (hs : Hosts) : anyHealthy hs = true ↔ ∃ i, hAt hs i =
     have hl := hAt_lt hi
     refine ⟨hs[i], List.getElem_mem hl, ?_⟩
     simpa [hAt, hl] using hi
+
+end MosnVerif.Model.LB
+
+namespace MosnVerif.Model.LB
+open MosnVerif.Model.EDF
+
+/-- over all-healthy hosts (≥ 2, scheduler built) a lookup of the weighted round-robin balancer is exactly one
+`NextAndPush` of its EDF scheduler. -/
+theorem wrrChoose_all_healthy (hs : Hosts) (hall : ∀ i, i < hs.length → hAt hs i = true) (h2 : 2 ≤ hs.length)
+    (st : LBState) (s : Sched) (hst : st.sched = some s) (hitems : s.entries.map (·.item) = List.range hs.length)
+    (hinv : Inv s) (hint : Option Nat) :
+    ∃ i s', s.nextAndPush (wrrWf hs) hint = some (i, s') ∧
+      (wrrChoose hs st { hints := [hint] }).result = some i ∧
+      (wrrChoose hs st { hints := [hint] }).st = { st with sched := some s' } := by
+  have hne : s.entries ≠ [] := by
+    intro h; rw [h] at hitems; simp at hitems
+    rw [hitems] at h2; simp at h2
+  -- the scheduler serves something
+  have hpick : ∃ e, s.pick hint = some e := by
+    unfold Sched.pick
+    split
+    · rename_i e _; exact ⟨e, rfl⟩
+    · have := minEntry_isSome hne
+      cases hm : minEntry s.entries with
+      | none => rw [hm] at this; simp at this
+      | some e => exact ⟨e, rfl⟩
+  obtain ⟨e, he⟩ := hpick
+  have hnp : ∃ s', s.nextAndPush (wrrWf hs) hint = some (e.item, s') := by
+    unfold Sched.nextAndPush; rw [he]; exact ⟨_, rfl⟩
+  obtain ⟨s', hs'⟩ := hnp
+  have hmem : e.item ∈ s.entries.map (·.item) := (next_deadlines hinv hs').1
+  rw [hitems] at hmem
+  have hlt : e.item < hs.length := by simpa using hmem
+  refine ⟨e.item, s', hs', ?_, ?_⟩
+  all_goals
+    unfold wrrChoose edfFront
+    have h0 : ¬ hs.length = 0 := by omega
+    have h1 : ¬ hs.length = 1 := by omega
+    simp only [h0, h1, if_false, hst]
+    have hloop : edfLoop hs (wrrWf hs) hs.length s [hint] = (some e.item, s', []) := by
+      obtain ⟨k, hk⟩ : ∃ k, hs.length = k + 1 := ⟨hs.length - 1, by omega⟩
+      rw [hk]
+      unfold edfLoop
+      simp only [List.headD_cons, hs', hall e.item hlt, if_true, List.tail_cons]
+    rw [hloop]
+
+/-- hence the hosts served by consecutive lookups are the picks of a scheduler run (and the scheduler state follows). -/
+theorem wrrServe_eq_run (hs : Hosts) (hall : ∀ i, i < hs.length → hAt hs i = true) (h2 : 2 ≤ hs.length)
+    (hwf : ∀ k, 0 < wrrWf hs k) (hints : List (Option Nat)) (st : LBState) (s : Sched) (hst : st.sched = some s)
+    (hitems : s.entries.map (·.item) = List.range hs.length) (hinv : Inv s) :
+    wrrServe hs st hints =
+      (((s.run (wrrWf hs) hints).1).map some, { st with sched := some (s.run (wrrWf hs) hints).2 }) := by
+  induction hints generalizing st s with
+  | nil =>
+    simp only [wrrServe, Sched.run, List.map_nil]
+    cases st; simp at hst; simp [hst]
+  | cons h r ih =>
+    obtain ⟨i, s', h1, h2', h3⟩ := wrrChoose_all_healthy hs hall h2 st s hst hitems hinv h
+    unfold wrrServe Sched.run
+    simp only [h1, h2', h3]
+    have hinv' := inv_next hinv hwf h1
+    have hitems' : s'.entries.map (·.item) = List.range hs.length := (next_deadlines hinv h1).2.1.trans hitems
+    rw [ih { st with sched := some s' } s' rfl hitems' hinv']
+    simp
 
 end MosnVerif.Model.LB
